@@ -178,11 +178,13 @@ def scan_diagnostics():
         def visit(fn, qual, attrs):
             nonlocal seen
             seen += 1
+            # the function re-orders something itself: whether the set order survives is not decided here
+            resorts = any(isinstance(n, ast.Call) and ((isinstance(n.func, ast.Name) and n.func.id == "sorted") or (isinstance(n.func, ast.Attribute) and n.func.attr == "sort")) for n in ast.walk(fn))
             okc = sorted_wrapped(fn)
             for ln, txt in order_leaks(fn, attrs):
                 if txt.startswith("comprehension") and any(isinstance(x, (ast.ListComp, ast.GeneratorExp)) and id(x) in okc and x.lineno == ln for x in ast.walk(fn)):
                     continue
-                found.append((rel, qual, ln, txt))
+                found.append((rel, qual, ln, txt, resorts))
 
         for node in tree.body:
             if isinstance(node, ast.ClassDef):
